@@ -824,6 +824,9 @@ func c13case(c *runner.Ctx, i int) {
 		spol := &c13specDelay{attempts: 2}
 		spol.set(time.Hour)
 		b.SpeculativeExecutionPolicy(spol)
+		// no retry policy (the session may have a default one): a driver timeout on a starved machine must not
+		// add arrivals that would be mistaken for speculative executions
+		b.RetryPolicy(nil)
 		b.Entries = append(b.Entries, gocql.BatchEntry{Stmt: "RETRY " + ta, Idempotent: true})
 		var e1, e2 error
 		c.Guard("ExecuteBatch", func() { e1 = sess.ExecuteBatch(b) })
